@@ -1237,6 +1237,10 @@ func c13CoqSlashes(s string) string {
 // the model; whether the pinned variant is still acceptable is decided by findings/C13.json alone.
 var c13EnvoyCaches bool
 
+// c13EnvoyDecodesPath: second sentinel (corpus case 7, an encoded slash under the default
+// allow_encoded_slashes: off): does the Envoy context carry RawPath (the repair of C13-F4, fixes/C13-F4.diff)?
+var c13EnvoyDecodesPath bool
+
 func c13Coq(c c13Case, or c13Oracle, o c13Obs) string {
 	q := c.Req
 	hs := vf.CoqListOf(q.Headers, func(h c13Hdr) string { return vf.CoqPair(vf.CoqStr(h.N), vf.CoqStr(h.V)) })
@@ -1250,7 +1254,7 @@ func c13Coq(c c13Case, or c13Oracle, o c13Obs) string {
 			vf.CoqListOf(rl.Steps, c13Step.coq), vf.CoqListOf(rl.Probes, c13Q.coq), coqPairs(c.Caps)) + ")"
 	}
 
-	return vf.CoqApp("cs", vf.CoqBool(c13EnvoyCaches), lreq, rule, vf.CoqStr(or.escPath), vf.CoqStr(or.ct), vf.CoqStr(or.decBody),
+	return vf.CoqApp("cs", vf.CoqBool(c13EnvoyCaches), vf.CoqBool(c13EnvoyDecodesPath), lreq, rule, vf.CoqStr(or.escPath), vf.CoqStr(or.ct), vf.CoqStr(or.decBody),
 		vf.CoqStr(or.decEmpty), o.Dec.coq(), o.Prx.coq(), o.Env.coq())
 }
 
@@ -1545,6 +1549,9 @@ func TestVerifC13(t *testing.T) {
 	} else {
 		t.Fatalf("sentinel request failed: %+v", s)
 	}
+
+	// sentinel (corpus case 7 through Envoy): is the encoded slash refused as the HTTP services refuse it?
+	c13EnvoyDecodesPath = c13ObserveEnvoy(capps.env, ccases[7]).Status == 400
 
 	for _, c := range ccases {
 		if vf.Want(idx) {
